@@ -118,6 +118,8 @@ package main
 //@ ensures[session-only-from-successful-redeem] ret1 == nil ==> called(Redeem) && ret1(Redeem) == nil && ret0 == ret0(Redeem)
 //@     && arg(Redeem, 3) == codeVerifier && arg(Redeem, 2) == ret(Get) && ret(Get) != ""
 //@ ensures[error-means-no-session] ret1 != nil ==> ret0 == nil
+//@ prop C12 C09
+//@ ensures[a-redeemed-session-has-an-issue-time-and-an-expiry] ret1 == nil ==> ret0.CreatedAt != nil && ret0.ExpiresOn != nil
 
 //@ func (*OAuthProxy).enrichSessionState
 //@ prop C14
@@ -450,6 +452,7 @@ package main
 //@ prop C16 C13
 //@ at call NewReadynessCheck assert[readiness-asks-this-proxys-store] arg(NewReadynessCheck, 1) == sessionStore && arg(NewReadynessCheck, 0) == opts.ReadyPath
 //@ at call NewRedirectToHTTPS assert[https-redirect-only-when-forced] opts.ForceHTTPS
+//@ ensures[https-redirect-whenever-forced] opts.ForceHTTPS && ret1 == nil ==> called(NewRedirectToHTTPS)
 
 // ---------------------------------------------------------------- C20 / C08: the e-mail list is loaded once and reloaded from the same file
 //@ stable UserMap.usersFile
